@@ -213,8 +213,8 @@ Proof. vm_compute. split; reflexivity. Qed.
    terminated, wg = 0 *)
 Example C12_nonvacuous :
   c12_run (Verif.Base.Str.tokens "tcp quiet 2 close:tddxd hold:td"%string)
-          (Verif.Base.Str.tokens "deliv 0 0 1 0 0 1 1 1 0 2 ; conns 1 ; stop ok ; left 0 ; port closed ; conns2 0 ; numrec 5"%string)
-  = "deliv 0 0 1 0 0 1 1 1 0 2 ; conns 1 ; stop ok ; left 0 ; port closed ; conns2 0 ; numrec 5 | T T"%string.
+          (Verif.Base.Str.tokens "deliv 0 0 1 0 0 1 1 1 0 2 ; conns 1 ; stop ok ; left 0 ; port closed ; conns2 0 ; numrec 5 ; garbled 0"%string)
+  = "deliv 0 0 1 0 0 1 1 1 0 2 ; conns 1 ; stop ok ; left 0 ; port closed ; conns2 0 ; numrec 5 ; garbled 0 | T T"%string.
 Proof. vm_compute. reflexivity. Qed.
 
 (* non-vacuity of (10): a run in which the ticker fires between two datagrams of address 0: the
